@@ -163,7 +163,7 @@ int main(int argc, char **argv)
    static char line[1 << 16];
    vinstall_traps();
    if (argc >= 4 && !strcmp(argv[1], "rand")) {
-      vrng m; long i, n = atol(argv[3]); m.s = strtoull(argv[2], 0, 10) * 0x9E3779B97F4A7C15ULL + 0xC08C0DE5ULL;
+      vrng m; long i, n = atol(argv[3]); m.s = strtoull(argv[2], 0, 10) * 0x9E3779B97F4A7C15ULL + 0xC08C0DE5ULL; m.s = vnext(&m);
       for (i = 0; i < n; i++) { vrng r; r.s = vnext(&m); gen_line(&r, line, sizeof line); run_line(line); }
       printf("# cseq cases=%ld ok=%ld err=%ld laplace=%ld (clamped %ld) pulses=%ld\n", n, n_ok, n_err, n_lap, n_clamped, n_pvq);
    } else if (argc >= 2 && !strcmp(argv[1], "stdin")) {
